@@ -127,7 +127,7 @@ func zzC06(nPods int) {
 			start:    nondet.TimeNs(l+".start", -24*time.Hour, 24*time.Hour),
 		}
 		ready := 2
-		if nondet.Thorough() {
+		if nondet.Thorough() && narrow {
 			ready = nondet.Int(l+".ready", 0, 2)
 		}
 		p := zzPod(i, zzHashNew, ready, true, nondet.Base().Add(-time.Hour))
@@ -269,20 +269,19 @@ func zzC06(nPods int) {
 }
 
 func zzTermReason(l string) string {
-	if nondet.Thorough() {
+	if nondet.Thorough() && zzC06Narrow {
 		return nondet.String(l+".termReason", "", "OOMKilled", "Error")
 	}
 	return "Error"
 }
 
-// ZZ_C06_triggers: one canary pod (quick) / two canary pods (thorough).
+// ZZ_C06_triggers: one canary pod over the full configuration space (previous conditions,
+// annotations, optional durations); the thorough tier adds the "condition / annotation absent"
+// shapes.  (Two pods over the full space do not finish within hours: two pods are covered by the
+// narrow ZZ_C06_twoPods, which in the thorough tier also varies readiness and termination reasons.)
 func ZZ_C06_triggers() {
 	zzC06Narrow = false
-	if nondet.Thorough() {
-		zzC06(2)
-	} else {
-		zzC06(1)
-	}
+	zzC06(1)
 }
 
 // ZZ_C06_twoPods: two canary pods, so that a trigger raised by the first pod must survive the
